@@ -220,7 +220,7 @@ def lexStrExprTextLoop (cfg : Cfg) : Nat → Prog StrTextEnd
       else do advance_; lexStrExprTextLoop cfg f
 
 def lexStrExprText (cfg : Cfg) : Prog Unit := do
-  perform .litBegin
+  perform .litBeginAtTok
   match (← lexStrExprTextLoop cfg (← fuelOfRest)) with
   | .done => pure ()
   | .eof =>
